@@ -116,6 +116,7 @@ class Executor(Ops2):
             ins = f.fn['blocks'][f.block][f.ip]
             st.dpos = 0
             st.nsteps += 1
+            self.cur_state = st
             if st.nsteps & 1023 == 0:
                 if st.nsteps > max_steps:
                     raise PathEnd('budget', 'max steps')
@@ -294,6 +295,8 @@ class Executor(Ops2):
                 if ins['o'] == 'Store' and isinstance(ins['a'], K) and isinstance(ins['a'].v, Ptr):
                     c = ins['a'].v.cell
                     if isinstance(c, tuple) and c[0] == 'g' and c not in self.shared_heap:
+                        if self.srv.glob(c[1])['short'] == 'init$guard':
+                            continue
                         self.shared_heap[c] = Poison('init of ' + pkg)
         ist = SharedState()
         ist.heap = self.shared_heap
@@ -319,6 +322,7 @@ class Executor(Ops2):
 
     def run_lenient(self, st, pkg):
         steps = 0
+        self.cur_state = None
         while st.frames:
             f = st.frames[-1]
             steps += 1
